@@ -7,8 +7,9 @@ Confirms, in a scratch worktree of /repo (never in /repo itself), that the candi
 /verif/seeded/<id>/ with what was run recorded in meta.json."""
 import json, os, shutil, subprocess, sys, time
 
-WT = "/tmp/seedv/wt"
-TARGET = "/tmp/seedv/target"
+BASE = os.environ.get("SEEDV_DIR", "/tmp/seedv")
+WT = BASE + "/wt"
+TARGET = BASE + "/target"
 ENV = dict(os.environ, CARGO_NET_OFFLINE="true", CARGO_TARGET_DIR=TARGET)
 
 
@@ -24,7 +25,7 @@ def suite_ok(out):
 
 
 def main():
-    os.makedirs("/tmp/seedv", exist_ok=True)
+    os.makedirs(BASE, exist_ok=True)
     for cand in sys.argv[1:]:
         cand = cand.rstrip("/")
         sid = os.path.basename(cand)
